@@ -299,8 +299,12 @@ def diff(a, b):
 
 # --------------------------------------------------------------------- checks
 
-def run_round_history(case, backend_name):
-  """Runs all rounds with fedjax on one backend; returns list of params per round."""
+def run_round_history(case, backend_name, twice=False):
+  """Runs all rounds with fedjax on one backend; returns list of params per round.
+
+  twice: every round is applied a second time to the SAME server state object,
+  with the cohort listed in reverse order (a state may be used for more than
+  one round: another client order, an evaluation branch, a retry)."""
   d = case['d']
   datasets = [make_dataset(c, d) for c in case['pool']]
   alg = build_algorithm(case, backend_name)
@@ -308,7 +312,15 @@ def run_round_history(case, backend_name):
   out = []
   for rnd in case['rounds']:
     clients = cohort(case, rnd, datasets)
-    state, diag = alg.apply(state, clients)
+    old_state = state
+    state, diag = alg.apply(old_state, clients)
+    if twice:
+      again, _ = alg.apply(old_state, list(reversed(clients)))
+      a, b = to_np(again.params), to_np(state.params)
+      sc = 1.0 + max(float(np.max(np.abs(v))) for v in b.values())
+      require(close(a, b, 2e-6 * sc), 'second_round_from_the_same_state_differs',
+              lambda: f'backend {backend_name}: same state, cohort reversed: differ by '
+                      f'{diff(a, b):.3e}')
     ids = [c[0] for c in clients]
     require(set(diag) == set(ids) and len(diag) == len(ids), 'diagnostics_keys',
             f'backend {backend_name}: diagnostics for {sorted(diag)} vs clients {sorted(ids)}')
@@ -340,7 +352,7 @@ def run_definition(case):
 def run_relations(case):
   """Permutation, backend, empty-client and all-empty-cohort relations."""
   d = case['d']
-  base, datasets = run_round_history(case, 'jit')
+  base, datasets = run_round_history(case, 'jit', twice=True)
   scale = 1.0 + max(float(np.max(np.abs(v))) for p in base for v in p.values())
   require(all(np.all(np.isfinite(v)) for p in base for v in p.values()), 'non_finite_params',
           f'{base}')
